@@ -35,7 +35,7 @@ ASSUMPTIONS = [
     "the bpm metronome, hitsounds/keysounds/samples and file-level fields (audio, preview, offsets, key mode) are not "
     "asserted: the statement names only notes, tempo (time, bpm), SVs and title/artist/creator/difficulty name",
     "key count of BMSToQua / OsuToSM is the one the converter documents: highest used column + 1; a BMS chart without "
-    "any note has no key count and BMSToQua is not run on it; OsuToSM on a note-less chart runs with raise_bad_mode=False",
+    "any note has no key count: BMSToQua must then raise ValueError with raise_bad_mode on and return a chart with mode "" otherwise (F30); OsuToSM on a note-less chart runs with raise_bad_mode=False",
     "O2JToBMS's documented default move_right_by=1 counts as the explicit shift when the argument is omitted",
     "a target chart is matched to the source chart at the same position",
     "rows are compared as multisets (row order and row labels are not part of the statement)",
@@ -75,10 +75,9 @@ CONVERTERS = {
     "sm": ["SMToBMS", "SMToOsu", "SMToQua"],
     "o2j": ["O2JToBMS", "O2JToOsu", "O2JToQua", "O2JToSM", "O2JToSM.merge"],
 }
-# BMSToQua on a BMS chart without notes raises "cannot convert float NaN to integer" whatever raise_bad_mode says
-# (proposed_fixes/C08_bmstoqua_no_notes.md).  Until that is decided the converter is not run on such charts; with
-# the fix applied set the variable and a note-less chart counts as an unsupported key mode (raise / mode "").
-ASSERT_BMSTOQUA_WITHOUT_NOTES = os.environ.get("C08_ASSERT_BMSTOQUA_NO_NOTES") == "1"
+# BMSToQua on a BMS chart without notes used to raise "cannot convert float NaN to integer" whatever raise_bad_mode
+# said (F30, fixed in /repo d2cf188): a note-less chart counts as an unsupported key mode (raise / mode "").
+ASSERT_BMSTOQUA_WITHOUT_NOTES = os.environ.get("C08_ASSERT_BMSTOQUA_NO_NOTES", "1") == "1"
 _MAP_CLASS = {"osu": "OsuMap", "qua": "QuaMap", "bms": "BMSMap", "sm": "SMMap", "o2j": "O2JMap"}
 LABEL_CHANGING = {"sorted", "after", "before", "stack_add", "stack_mul", "stack_loc", "rate"}
 _CMP = {">": operator.gt, ">=": operator.ge, "<": operator.lt, "<=": operator.le, "==": operator.eq}
